@@ -305,6 +305,9 @@ func tagsOf(c *Case, o *Obs) []string {
 	maxPar := 0
 	var walk func(g *Graph)
 	walk = func(g *Graph) {
+		if g.Chain {
+			faults["front-chain"]++
+		}
 		if g.WF {
 			faults["mode-workflow"]++
 		} else if g.Dag {
@@ -368,7 +371,7 @@ func tagsOf(c *Case, o *Obs) []string {
 	nf := 0
 	for k, v := range faults {
 		t = append(t, "has:"+k)
-		if !strings.HasPrefix(k, "mode-") && !strings.HasPrefix(k, "flav-") && !strings.HasPrefix(k, "err-") && k != "loop" && k != "explicit-max" && k != "end-branch" {
+		if !strings.HasPrefix(k, "mode-") && !strings.HasPrefix(k, "front-") && !strings.HasPrefix(k, "flav-") && !strings.HasPrefix(k, "err-") && k != "loop" && k != "explicit-max" && k != "end-branch" {
 			nf += v
 		}
 	}
